@@ -105,6 +105,9 @@ func (pe *propertiesEncoder) doEncode(p *properties.Properties, node *CandidateN
 	case MappingNode:
 		return pe.encodeMap(p, node.Content, path)
 	case AliasNode:
+		if node.Alias == nil {
+			return fmt.Errorf("cannot encode alias *%v, it has no target", node.Value)
+		}
 		return pe.doEncode(p, node.Alias, path, nil)
 	default:
 		return fmt.Errorf("Unsupported node %v", node.Tag)
